@@ -349,7 +349,13 @@ fn contribution<F: StepF, const M: usize>(item: u64) -> [F; M] {
             }
         }
         p[j] = pk;
-        let v = r + F::from(j).unwrap();
+        // specification of the stored value: j + r, kept below j + 1 (largest float below j + 1 when the sum rounds up)
+        let mut v = r + F::from(j).unwrap();
+        let jp1 = F::from(j + 1).unwrap();
+        if v >= jp1 {
+            v = jp1 - jp1 * F::epsilon() * F::from(0.5).unwrap();
+        }
+        assert!(v < jp1 && v >= F::from(j).unwrap());
         for i0 in 0..M {
             if i0 == pk {
                 c[i0] = v;
@@ -394,17 +400,16 @@ fn c03_single_item<F: StepF, const M: usize>() {
     let mut seen = [false; M];
     for i in 0..M {
         assert!(F::bits_eq(s.hsketch[i], c[i]));
-        // integer parts: a permutation of 0..m (the value j + r may round up to j + 1: then the
-        // integer part is read as j + 1, which the histogram invariant above is about)
+        // integer parts: exactly a permutation of 0..m-1 (every value lies in [j, j+1) for its level j)
         let ip = s.hsketch[i].to_usize().unwrap();
-        assert!(ip <= M);
+        assert!(ip < M);
         for j in 0..M {
             if j == ip {
                 assert!(!seen[j]);
                 seen[j] = true;
             }
         }
-        assert!(s.hsketch[i] < F::from(M).unwrap() || ip == M);
+        assert!(s.hsketch[i] >= F::zero() && s.hsketch[i] < F::from(M).unwrap());
     }
     assert!(inv_smh::<F, M>(&s));
     kani::cover!(s.hsketch[0] >= F::one(), "witness: non-identity permutation");
